@@ -9,3 +9,6 @@ pub struct OpaqueT3 {}
 pub struct OpaqueT4 {}
 #[verifier::external_body]
 pub struct OpaqueT5 {}
+// stand-in for Buffer.sixel_threads: VecDeque<JoinHandle<EngineResult<Sixel>>> (its operations are specified in unit sixel_threads)
+#[verifier::external_body]
+pub struct VxThreadQueue {}
